@@ -148,6 +148,7 @@ SHARED = {
     "C11": " Also evaluates the wake/poll handshake (C01), Occupied-only polling (C05 R5.1), slot-map all-or-none (C02 R2.3), and that the unbounded push inserts exactly once on every path.",
     "C12": " Added: every Waker::wake* call in the crate is on the caller's task waker (the crate never invokes a child slot waker itself).",
     "C13": " Service order within a group: children are polled only when their own entry is dequeued (C05 R5.1) and a merged stream that yielded is re-queued at the tail (C01 R1.6) -- both evaluated here. The budget cell may count up or down, directly or through a &mut borrow of it (helper inlined); exhaustion must lead, on every feasible path, out of the loop through a self-wake to a Pending return. The budget must admit at least one child poll; every loop cycle that polls a child passes the increment and the comparison.",
+    "C14": " Added: no spurious queue entries (R14.4): every enqueue in the crate only on the flag's false->true transition, and marking loops only over occupied slots (a full map built by FromIterator, C07 R7.6); the budget licence of a self-wake is decided with C13's budget-cell analysis.",
     "C15": " Added: try-push forwarders have no side effects of their own (R15.2), every group of an unbounded collection has capacity >= 1 (R15.5).",
     "C16": " The guard is decided by finite-grid entailment (a pull is admitted only when running + parked < capacity) with the exact-shape rule as fallback; C15 R15.3 (len = running + parked) is evaluated in this check.",
     "C17": " Handles match, Option::and_then and map/unwrap_or forms of the bound computation; C15 R15.3 is evaluated in this check.",
